@@ -108,9 +108,26 @@ def poly : P Poly := do
     let hs ← many k ring
     pure { ext := e, holes := hs }
 
-def mpoly : P MPoly := do
+def mpolyLit : P MPoly := do
   let n ← nat
   many n poly
+
+/-- an operand: a literal multipolygon or `@k`, the implementation's result of run `k` -/
+def mpolyRef (resolve : Nat → Option MPoly) : P MPoly := do
+  let pk ← peek?
+  match pk with
+  | some t =>
+    if t.startsWith "@" then
+      let _ ← tok
+      match (t.drop 1).toString.toNat? with
+      | some k => match resolve k with
+        | some m => pure m
+        | none => failure
+      | none => failure
+    else mpolyLit
+  | none => failure
+
+def mpoly : P MPoly := mpolyLit
 
 def op : P Op := do
   let t ← tok
@@ -146,7 +163,7 @@ def showFail : Fail → String
   | .panic .unwrapOther => "PANIC unwrapOther"
   | .panic .indexEvents => "PANIC indexEvents"
   | .panic (.debugAssert w) => s!"PANIC debugAssert {w.replace " " "_"}"
-  | .budget => "BUDGET"
+  | .budget b => s!"BUDGET bumps={b}"
   | .nonfinite => "NONFINITE"
   | .fuel w => s!"FUEL {w.replace " " "_"}"
 
